@@ -196,7 +196,7 @@ def run_class_case(ci, pool):
 
 
 # ---- special shapes: bundles, observed-data containers, markings, toplevel-property extensions, datetime inputs in other zones
-NSPECIAL = 17
+NSPECIAL = 18
 
 
 def special_shapes(si: int) -> bool:
@@ -335,6 +335,21 @@ def run_special_case(si):
                         r = roundtrip_ok(cls(**kw2), cls, None)
                         if r is not True:
                             return (cls.__module__, p.name, c.name, us) + r
+        return True
+    if si == 17:
+        # custom property names that look like numbers (the pretty printer keys nested observable mappings by number)
+        names = ["10", "3", "x_a", "\u00b2", "\u0663"]
+        for cls, ver in ((stix2.v20.Identity, "2.0"), (stix2.v21.Identity, "2.1")):
+            for chosen in ([0, 1, 2, 3, 4], [1, 2], [3], [4, 2]):
+                cp = OrderedDict((names[i], i) for i in sorted(chosen))
+                try:
+                    o = cls(id="identity--" + UU, name="n", identity_class="individual", created="2020-01-01T00:00:00.000Z", modified="2020-01-01T00:00:00.000Z",
+                            custom_properties=cp)
+                except (STIXError, ValueError):
+                    continue
+                rr = roundtrip_ok(o, cls, _MODEL[ver]["objects"]["identity"]["order"])
+                if rr is not True:
+                    return (ver, list(cp)) + rr
         return True
     if si in (15, 16):
         from stix2 import registry
